@@ -20,22 +20,29 @@ cd "$WT"
 DEMO_CMD=$(cat "$SEED/demo_cmd.txt")
 run_demo() { ( cd "$WT" && CARGO_NET_OFFLINE=true timeout 1800 bash -c "$DEMO_CMD" ) >"$WT/.demo.log" 2>&1; echo $?; }
 git apply "$SEED/demo.diff" || { echo "demo.diff does not apply"; exit 2; }
-DEMO_CLEAN=$(run_demo)
 git apply "$SEED/patch.diff" || { echo "patch.diff does not apply"; exit 2; }
-DEMO_PATCHED=$(run_demo)
-tail -5 "$WT/.demo.log" > "$SEED/demo_patched.log" 2>/dev/null
+# one build of the patched tree (demo included) serves the baseline suite and the demo
 SUITE=skipped
 if [ "$SKIP" != "--skip-suite" ]; then
-  git apply -R "$SEED/demo.diff"
   if BASELINE_REPO="$WT" /verif/tools/baseline_off.sh > "$WT/.suite.log" 2>&1; then SUITE=pass; else SUITE=fail; fi
   tail -8 "$WT/.suite.log" > "$SEED/suite.log"
-else
-  git apply -R "$SEED/demo.diff"
 fi
+DEMO_PATCHED=$(run_demo)
+tail -5 "$WT/.demo.log" > "$SEED/demo_patched.log" 2>/dev/null
+git apply -R "$SEED/patch.diff"
+DEMO_CLEAN=$(run_demo)
+git apply -R "$SEED/demo.diff"
+git apply "$SEED/patch.diff"
 cd /verif
-CHECK_OUT=$(VERIF_REPO="$WT" VERIF_TARGET="${VERIF_TARGET:-/verif/target}" ./check "$PROP" --tier quick 2>"$SEED/check.stderr")
-CHECK_RC=$?
-echo "$CHECK_OUT" > "$SEED/check.stdout"
+if [ -f "$SEED/quickcheck.txt" ] && grep -q "rc=[0-9]" "$SEED/quickcheck.txt"; then
+  # the detection-only pass (tools/check_seeds.sh) already ran ./check against this patch
+  CHECK_RC=$(sed -n 's/.*rc=\([0-9]*\).*/\1/p' "$SEED/quickcheck.txt" | head -1)
+  cp "$SEED/quickcheck.stderr" "$SEED/check.stderr" 2>/dev/null
+else
+  CHECK_OUT=$(VERIF_REPO="$WT" VERIF_TARGET="${VERIF_TARGET:-/verif/target}" ./check "$PROP" --tier quick 2>"$SEED/check.stderr")
+  CHECK_RC=$?
+  echo "$CHECK_OUT" > "$SEED/check.stdout"
+fi
 python3 - "$RES" "$PROP" "$DEMO_CLEAN" "$DEMO_PATCHED" "$SUITE" "$CHECK_RC" <<'P'
 import json, sys
 res, prop, dc, dp, suite, rc = sys.argv[1:]
